@@ -228,9 +228,9 @@ def rand_subject(rng, maxlen):
     return bytes(rng.choice(alpha) for _ in range(n))
 
 
-def xline(cflags, pat, nms, efs, subjs):
+def xline(cflags, pat, nms, efs, subjs, op="y"):
     # `y` = `x` + internal projection (whole pmatch arrays vs the Lean model of the C matcher)
-    return "y %d %s %s %s %s" % (cflags, vf.hexs(pat), ",".join(str(n) for n in nms),
+    return "%s %d %s %s %s %s" % (op, cflags, vf.hexs(pat), ",".join(str(n) for n in nms),
                                  ",".join(str(e) for e in efs), " ".join(vf.hexs(s) for s in subjs))
 
 
@@ -890,12 +890,18 @@ def run(ck):
                   efs = [0, 32]
               else:
                   efs = [0, 48] if r8 else [0]
-              lines.append(xline(base, pat, [0, 1, "m"], efs, full))
-              lines.append(xline(base | NEWLINE, pat, [0, "m"], efs, full if nl_rel else (small if r8 else subs[2])))
-              lines.append(xline(base | NOSUB, pat, [0, 1], efs[:2], full if r8 else small))
-              lines.append(xline(base | NOSUB | NEWLINE, pat, [0, 1], efs[:2], small if (nl_rel or r8) else subs[2]))
+              # 5-node trees (thorough): whole pmatch arrays vs the matcher model on every other pattern
+              yop = "y" if (nn <= 4 or (ti + rot) % 2 == 0) else "x"
+              lines.append(xline(base, pat, [0, 1, "m"], efs, full, op=yop))
+              lines.append(xline(base | NEWLINE, pat, [0, "m"], efs, full if nl_rel else (small if r8 else subs[2]), op=yop))
+              lines.append(xline(base | NOSUB, pat, [0, 1], efs[:2], full if r8 else small, op="y" if r8 else "x"))
+              # REG_NOSUB reports no offsets: the internal projection adds nothing there except on a rotating
+              # eighth (relaxed-mode return code of the matcher model)
+              lines.append(xline(base | NOSUB | NEWLINE, pat, [0, 1], efs[:2], small if (nl_rel or r8) else subs[2],
+                                 op="y" if r8 else "x"))
               for cf in (ICASE, ICASE | NEWLINE, ICASE | NOSUB, ICASE | NEWLINE | NOSUB):
-                  lines.append(xline(base | cf, pat, [1], [0, 48] if anchored else [0], small if r8 else subs[2]))
+                  lines.append(xline(base | cf, pat, [1], [0, 48] if anchored else [0], small if r8 else subs[2],
+                                     op="y" if r8 else "x"))
           if len(lines) >= 16 * 1500:
               yield lines
               lines = []
